@@ -85,7 +85,7 @@ func c03Oracle(c ngapCase) ev.Verdict {
 
 func TestC03_Encode(t *testing.T) {
 	r := ev.New(t, "C03", "TestC03_Encode")
-	ev.Run(t, r, func(rt *rapid.T) ngapCase { return genNgapCase(rt, false) }, c03Oracle)
+	ev.Run(t, r, func(rt *rapid.T) ngapCase { return genNgapCase(rt, false) }, func(c ngapCase) ev.Verdict { return withLog(c, c03Oracle) })
 }
 
 // ---------------------------------------------------------------------------------------
